@@ -2,11 +2,12 @@
 Implementation under test: kapture.converter.downloader.archives.untar_file (called by
 tools/kapture_download_dataset.py).
 
-SAFETY of this harness: every extraction happens in <ctx.tmp>/sb/0/1/.../89/p/install.  The install
-directory sits DEPTH levels below the sandbox top, every member name / link target carries at most
-MAX_DOTDOT '..' components and absolute names / targets always point below <...>/p.  The kernel follows at
-most 40 nested symbolic links per path resolution, so even a fully trusting extraction cannot climb more
-than MAX_DOTDOT * 41 < DEPTH levels: whatever the code under test does stays inside the sandbox.
+SAFETY of this harness: every extraction happens in <ctx.tmp>/sb<depth>/0/1/.../p/install.  The install
+directory sits depth levels below the sandbox top: 90 when every member name / link target of the archive
+carries at most 2 '..' components, 130 for the few archives with 3 (never more); absolute names / targets
+always point below <...>/p.  The kernel follows at most 40 nested symbolic links per path resolution, so even a
+fully trusting extraction cannot climb more than 41 levels per '..' of the worst text (82 < 90, 123 < 130):
+whatever the code under test does stays inside the sandbox.
 """
 import io
 import os
@@ -24,8 +25,9 @@ CASE_TYPE = 'MUntar.case'
 CHECK_FN = 'MUntar.check_case'
 SHARD_SIZE = 60
 CASE_TIMEOUT = 20
-DEPTH = 90
-MAX_DOTDOT = 2
+DEPTH = 90            # for archives whose texts carry at most 2 '..' (almost all)
+DEEP_DEPTH = 130      # for the few archives with 3 '..' in one text
+MAX_DOTDOT = 3
 
 RULE = ('one case = initial tree of a sandbox (install directory fresh or populated, incl. user-made links; sentinel '
         'files, a directory and a link pointing back, outside) + an archive (1..8 members of kinds regular / directory / '
@@ -63,8 +65,14 @@ OUTSIDE = [['sentinel.txt', 'file', 'precious'], ['outdir', 'dir'], ['outdir/kee
            ['victim', 'dir'], ['victim/sensors', 'dir'], ['victim/sensors/sensors.txt', 'file', '# kapture format: 1.0']]
 
 
-def _chain():
-    return [str(i) for i in range(DEPTH)] + ['p']
+def _depth_for(members):
+    """41 levels per '..' of the worst text: the kernel follows at most 40 nested links per resolution"""
+    worst = max([0] + [_count_dotdot(m['name']) for m in members] + [_count_dotdot(m.get('target', '')) for m in members])
+    return DEPTH if worst <= 2 else DEEP_DEPTH
+
+
+def _chain(depth):
+    return [str(i) for i in range(depth)] + ['p']
 
 
 def _count_dotdot(s):
@@ -120,7 +128,7 @@ def _dd_name(rng):
         comps.insert(rng.randint(0, len(comps) - (0 if rng.random() < 0.15 else 1)), '..')
     if rng.random() < 0.3:
         comps = ['..', rng.choice(['newdir', 'outdir', 'nd2']), '..', 'install'] [:rng.choice([2, 4])] + comps[-1:]
-    while comps.count('..') > MAX_DOTDOT:
+    while comps.count('..') > 2:
         comps.remove('..')
     return '/'.join(comps)
 
@@ -257,7 +265,7 @@ def _backslash(rng):
 
 def _repoint(rng):
     """links that point inside when they are created and are re-pointed outside by what comes after them"""
-    v = rng.randrange(5)
+    v = rng.randrange(6)
     if v == 0:
         ms = [_sym('b', 'c/d'), _sym('a', 'b/../..'), _sym('k/sensors/sensors.txt', '../../a/victim/sensors/sensors.txt'),
               _sym('c', '.'), _dir(rng, 'd')]
@@ -267,8 +275,12 @@ def _repoint(rng):
         ms = [_dir(rng, 'x/y'), _sym('t', 'x/y'), _sym('a', 't/../..'), _sym('t', '.')]
     elif v == 3:
         ms = [_sym('a', 'n/../../outdir'), _sym('n', 'sub/deep'), _dir(rng, 'sub/deep'), _reg(rng, 'f.txt')]
-    else:
+    elif v == 4:
         ms = [_sym('q/l', 'm/../../..'), _dir(rng, 'q'), _sym('q/m', '.'), _sym('z', 'q/l/sentinel.txt')]
+    else:       # '..' hidden behind a directory that does not exist yet, through a link to the install directory itself
+        ms = [_sym('here', '.'), _reg(rng, rng.choice(['fresh/../here/../ESCAPED/../install/landing/records.txt',
+                                                        'fresh/../here/../outdir/../install/f.txt',
+                                                        'nd/../here/../ESC2/x.txt']))]
     r = rng.random()
     if r < 0.25:
         ms = ms[:rng.randint(1, len(ms))]           # a prefix: often still harmless
@@ -464,9 +476,12 @@ def run_impl(case, ctx):
     from kapture.converter.downloader.archives import untar_file
     if not _members_safe(case['members']):
         raise ValueError('case violates the sandbox safety bound of the harness')
-    top = os.path.realpath(os.path.join(ctx['tmp'], 'sb'))
+    depth = _depth_for(case['members'])
+    assert depth >= 41 * max(2, max([_count_dotdot(m['name']) for m in case['members']]
+                                    + [_count_dotdot(m.get('target', '')) for m in case['members']]))
+    top = os.path.realpath(os.path.join(ctx['tmp'], 'sb%d' % depth))
     assert top.startswith(os.path.realpath(ctx['tmp']))
-    P = os.path.join(top, *_chain())
+    P = os.path.join(top, *_chain(depth))
     # the chain of DEPTH directories above P is kept from one case to the next (it is verified after each case
     # and rebuilt if anything touched it); P itself is rebuilt for every case
     if os.path.lexists(P):
